@@ -8,6 +8,7 @@ type Rule func(ctx *core.Ctx, r *core.Report)
 
 // Registry maps property ids to their rule sets.
 var Registry = map[string]Rule{
+	"C06": C06,
 	"C10": C10,
 	"C13": C13,
 	"C14": C14,
